@@ -107,7 +107,15 @@ func c20K2(c *Ctx) {
 	}
 	defer func() { lib.VerifHandler = nil }()
 
-	nscn := c.N(250, 6000)
+	// baseline: the smallest goroutine count seen over a few milliseconds (helpers of earlier parts may still be exiting)
+	c20baseG = runtime.NumGoroutine()
+	for i := 0; i < 100; i++ {
+		time.Sleep(50 * time.Microsecond)
+		if n := runtime.NumGoroutine(); n < c20baseG {
+			c20baseG = n
+		}
+	}
+	nscn := c.N(250, 20000)
 	var all []*c20scn
 	attempts := 0
 	for len(all) < nscn && attempts < nscn*3 {
@@ -148,6 +156,20 @@ func c20K2(c *Ctx) {
 	}
 }
 
+// goroutines alive when no cron object is active; a scenario starts, and a tick is complete, only when the count is back here
+var c20baseG int
+
+func c20settle(d time.Duration) bool {
+	deadline := time.Now().Add(d)
+	for runtime.NumGoroutine() > c20baseG {
+		if time.Now().After(deadline) {
+			return false
+		}
+		time.Sleep(20 * time.Microsecond)
+	}
+	return true
+}
+
 // c20scenario runs one operation sequence on a fresh cron object; ok=false when the wall-clock minute
 // changed under it or a wait timed out (inconclusive, retried by the caller)
 func c20scenario(c *Ctx, z *c20zones, tickDone chan any, idx int) (*c20scn, bool) {
@@ -158,6 +180,9 @@ func c20scenario(c *Ctx, z *c20zones, tickDone chan any, idx int) (*c20scn, bool
 	var fired []c20fire
 	act := c20action{&mu, &fired}
 
+	if !c20settle(5 * time.Second) {
+		return nil, false
+	}
 	startMinute := time.Now().Truncate(time.Minute)
 	before := time.Now()
 	vc := node.VerifNewCron()
@@ -365,7 +390,6 @@ func c20scenario(c *Ctx, z *c20zones, tickDone chan any, idx int) (*c20scn, bool
 			for len(tickDone) > 0 {
 				<-tickDone
 			}
-			baseG := runtime.NumGoroutine()
 			exp := expectSpool()
 			vc.TickNow()
 			// wait for the end of the timer function of this object (a stray run of an earlier object is ignored)
@@ -379,12 +403,8 @@ func c20scenario(c *Ctx, z *c20zones, tickDone chan any, idx int) (*c20scn, bool
 				}
 			}
 			vc.Stop()
-			deadline := time.Now().Add(3 * time.Second)
-			for runtime.NumGoroutine() > baseG {
-				if time.Now().After(deadline) {
-					return nil, false
-				}
-				time.Sleep(20 * time.Microsecond)
+			if !c20settle(3 * time.Second) {
+				return nil, false
 			}
 			now := time.Now().Truncate(time.Minute)
 			if !now.Equal(startMinute) {
